@@ -57,6 +57,9 @@ func vfCfg(port uint32) *service.Config {
 
 func vfEndpoint(i int, backup bool) *service.Endpoint {
 	e := &service.Endpoint{Address: &common.Address{Ip: "10.0.0.1", Port: uint32(8000 + i)}}
+	// the state the registry reports for the endpoint (UP, DOWN, UNKNOWN) is part of the update;
+	// membership of the endpoint set - and so of the processor's host set - does not depend on it
+	e.State = service.Endpoint_State(nd.IntRange("endpoint-state", 0, 2))
 	if backup {
 		e.Type = service.Endpoint_BACKUP
 	}
